@@ -12,7 +12,8 @@ MODULES = ('cryptoparser.tls.mysql', 'cryptoparser.tls.rdp', 'cryptoparser.tls.o
 def units(tier, seed):
     us, unc = k6family.make_units('C09', MODULES, tier)
     UNCOVERED[:] = unc
-    return us
+    from checks import foundation
+    return list(us) + foundation.units(tier, seed)
 
 
 FINDING_REPLAYS = regions.finding_replays('C09')
